@@ -686,3 +686,221 @@ impl MetricSink for BoxSink {
         self.0.stats()
     }
 }
+
+/// BufferedSpyMetricSink with a bounded channel as a real fault injector (C07): the harness
+/// decides when the channel is drained; while it is full every write is refused. Writes are
+/// attributed to the operations that made them when the channel is drained.
+pub fn spy_bounded(spec: &crate::Spec) -> Report {
+    let mut rep = Report::new(&spec.raw);
+    let cap = spec.usize("cap", 4);
+    let q = spec.usize("q", 1);
+    let depth = spec.usize("depth", 5);
+    #[derive(Clone, Debug, PartialEq)]
+    enum Op {
+        Emit(usize),
+        Flush,
+        Drain,
+    }
+    let mut alpha: Vec<Op> = (1..=cap + 1).map(Op::Emit).collect();
+    alpha.push(Op::Flush);
+    alpha.push(Op::Drain);
+    for hist in sequences(&alpha, depth) {
+        if hist.is_empty() || !hist.iter().any(|o| matches!(o, Op::Emit(_))) {
+            continue;
+        }
+        rep.evaluations += 1;
+        rep.traces += 1;
+        rep.distinct(&format!("{:?}", hist));
+        let (rx, sink) = cadence::BufferedSpyMetricSink::with_capacity(Some(q), Some(cap));
+        let mut model = Model::new(cap, b"\n", true);
+        // operations not yet judged: (call, result, number of datagrams they put into the channel)
+        let mut waiting: Vec<(Call, Result<usize, String>, usize)> = vec![];
+        let mut wire: Vec<Vec<u8>> = vec![];
+        let ctx = format!("bounded spy sink (queue {}, buffer {}) history {:?}", q, cap, hist);
+        let mut feed = |model: &mut Model, waiting: &mut Vec<(Call, Result<usize, String>, usize)>, wire: &mut Vec<Vec<u8>>, rep: &mut Report, upto_all: bool| {
+            // judge waiting operations whose datagrams have all been drained
+            while let Some((_, _, n)) = waiting.first() {
+                if wire.len() < *n && !upto_all {
+                    break;
+                }
+                let (call, res, n) = waiting.remove(0);
+                let n = n.min(wire.len());
+                let mut attempts: Vec<Attempt> = wire.drain(..n).map(|b| Attempt { bytes: b, ok: true, fail_id: None }).collect();
+                let r = match res {
+                    Ok(v) => Res::Ok(v),
+                    Err(e) => {
+                        let bytes = match &call {
+                            Call::Emit(m) if m.len + 1 > cap => m.bytes(),
+                            _ => {
+                                // what a conforming writer attempts after the successful writes of this call
+                                let mut m2 = Model::new(cap, b"\n", true);
+                                m2.pending = model.pending.clone();
+                                for a in &attempts {
+                                    if let Some(k) = (1..=m2.pending.len()).find(|k| m2.concat(&m2.pending[..*k]) == a.bytes) {
+                                        m2.pending.drain(..k);
+                                    }
+                                }
+                                m2.concat(&m2.pending)
+                            }
+                        };
+                        attempts.push(Attempt { bytes, ok: false, fail_id: Some(1) });
+                        rep.flag("write-refused-channel-full");
+                        let _ = e;
+                        Res::Err(Some(1), "channel full".into())
+                    }
+                };
+                for b in model.step(&call, &attempts, &r) {
+                    bad(rep, &b.props, &format!("spyq-{}", b.sig), format!("{}: {}", ctx, b.what));
+                }
+            }
+        };
+        for (i, op) in hist.iter().enumerate() {
+            let before = rx.len();
+            match op {
+                Op::Drain => {
+                    wire.extend(rx.try_iter());
+                    feed(&mut model, &mut waiting, &mut wire, &mut rep, false);
+                    continue;
+                }
+                Op::Emit(l) => {
+                    let m = Met { letter: letter(i), len: *l };
+                    let text = String::from_utf8(m.bytes()).unwrap();
+                    let r = panic::catch_unwind(AssertUnwindSafe(|| sink.emit(&text)));
+                    match r {
+                        Ok(r) => waiting.push((Call::Emit(m), r.map_err(|e| e.to_string()), rx.len() - before)),
+                        Err(_) => bad(&mut rep, &["C07", "C20"], "panic", format!("{}: emit panicked", ctx)),
+                    }
+                }
+                Op::Flush => {
+                    let r = panic::catch_unwind(AssertUnwindSafe(|| sink.flush()));
+                    match r {
+                        Ok(r) => waiting.push((Call::Flush, r.map(|_| 0).map_err(|e| e.to_string()), rx.len() - before)),
+                        Err(_) => bad(&mut rep, &["C07", "C20"], "panic", format!("{}: flush panicked", ctx)),
+                    }
+                }
+            }
+        }
+        // make room, flush, drop: everything accepted must come out exactly once
+        wire.extend(rx.try_iter());
+        feed(&mut model, &mut waiting, &mut wire, &mut rep, false);
+        let before = rx.len();
+        let r = sink.flush();
+        waiting.push((Call::Flush, r.map(|_| 0).map_err(|e| e.to_string()), rx.len() - before));
+        wire.extend(rx.try_iter());
+        feed(&mut model, &mut waiting, &mut wire, &mut rep, false);
+        drop(sink);
+        wire.extend(rx.try_iter());
+        let n = wire.len();
+        waiting.push((Call::Drop, Ok(0), n));
+        feed(&mut model, &mut waiting, &mut wire, &mut rep, true);
+        if rep.samples.is_empty() && hist.len() == depth {
+            rep.sample(Json::obj().set("history", format!("{:?}", hist)).set("datagrams", model.datagrams.iter().map(|d| bytes_str(&d.0)).collect::<Vec<_>>()));
+        }
+        if rep.full() {
+            break;
+        }
+    }
+    rep
+}
+
+/// C06 through the client: every sequence over {client metric call (short / long key), client.flush(),
+/// sink-level flush} on `StatsdClient` -> `BufferedSpyMetricSink`; after every flush that returns
+/// Ok, and after the drop, the datagrams received are exactly the acknowledged lines, once each.
+pub fn client_flush(spec: &crate::Spec) -> Report {
+    use cadence::prelude::*;
+    let mut rep = Report::new(&spec.raw);
+    let cap = spec.usize("cap", 16);
+    let depth = spec.usize("depth", 4);
+    #[derive(Clone, Debug, PartialEq)]
+    enum Op {
+        Short,
+        Long,
+        Huge,
+        ClientFlush,
+    }
+    let alpha = vec![Op::Short, Op::Long, Op::Huge, Op::ClientFlush];
+    for hist in sequences(&alpha, depth) {
+        if hist.is_empty() {
+            continue;
+        }
+        rep.evaluations += 1;
+        rep.traces += 1;
+        rep.distinct(&format!("{:?}", hist));
+        let (rx, sink) = cadence::BufferedSpyMetricSink::with_capacity(None, Some(cap));
+        let client = cadence::StatsdClient::from_sink("", sink);
+        let mut acked_fitting: Vec<String> = vec![];
+        let mut acked_huge: Vec<String> = vec![];
+        let mut wire: Vec<Vec<u8>> = vec![];
+        let ctx = format!("client -> buffered spy sink (buffer {}) history {:?}", cap, hist);
+        let check = |when: &str, wire: &Vec<Vec<u8>>, fitting: &Vec<String>, huge: &Vec<String>, rep: &mut Report| {
+            let mut lines: Vec<String> = vec![];
+            for d in wire {
+                let t = String::from_utf8_lossy(d).to_string();
+                if huge.contains(&t) {
+                    continue;
+                }
+                if !t.ends_with('\n') {
+                    bad(rep, &["C06", "C05"], "client-partial-line", format!("{} {}: datagram {:?} is not whole lines", ctx, when, t));
+                }
+                lines.extend(t.trim_end_matches('\n').split('\n').map(|s| s.to_string()));
+            }
+            if lines != *fitting {
+                bad(rep, &["C06"], "client-flush-conservation", format!("{} {}: acknowledged lines {:?} but the receiver holds {:?}", ctx, when, fitting, lines));
+            }
+            for h in huge {
+                let n = wire.iter().filter(|d| d.as_slice() == h.as_bytes()).count();
+                if n != 1 {
+                    bad(rep, &["C06"], "client-oversize-count", format!("{} {}: oversize line {:?} appears {} times on the wire", ctx, when, h, n));
+                }
+            }
+        };
+        for (i, op) in hist.iter().enumerate() {
+            let key = match op {
+                Op::Short => format!("{}", letter(i) as char),
+                Op::Long => format!("{}", (letter(i) as char).to_string().repeat(cap - 6)),
+                Op::Huge => format!("{}", (letter(i) as char).to_string().repeat(cap + 3)),
+                Op::ClientFlush => String::new(),
+            };
+            if *op == Op::ClientFlush {
+                let r = client.flush();
+                wire.extend(rx.try_iter());
+                match r {
+                    Ok(()) => {
+                        rep.flag("client-flush-ok");
+                        check(&format!("after client.flush() (op {})", i), &wire, &acked_fitting, &acked_huge, &mut rep);
+                        // flushing again writes nothing
+                        let _ = client.flush();
+                        let extra: Vec<Vec<u8>> = rx.try_iter().collect();
+                        if !extra.is_empty() {
+                            bad(&mut rep, &["C06"], "second-flush-wrote", format!("{}: a second client.flush() wrote {:?}", ctx, extra.iter().map(|e| bytes_str(e)).collect::<Vec<_>>()));
+                        }
+                    }
+                    Err(e) => bad(&mut rep, &["C06"], "client-flush-failed", format!("{}: client.flush() failed without any socket failure: {}", ctx, e)),
+                }
+                continue;
+            }
+            match client.count(&key, 1) {
+                Ok(m) => {
+                    let line = cadence::Metric::as_metric_str(&m).to_string();
+                    if line.len() + 1 > cap {
+                        acked_huge.push(line);
+                    } else {
+                        acked_fitting.push(line);
+                    }
+                }
+                Err(e) => bad(&mut rep, &["C06"], "client-call-failed", format!("{}: count({:?}) failed without any socket failure: {}", ctx, key, e)),
+            }
+            wire.extend(rx.try_iter());
+        }
+        drop(client);
+        wire.extend(rx.try_iter());
+        check("after the client was dropped", &wire, &acked_fitting, &acked_huge, &mut rep);
+        if rep.samples.is_empty() && hist.len() == depth {
+            rep.sample(Json::obj().set("history", format!("{:?}", hist)).set("wire", wire.iter().map(|d| bytes_str(d)).collect::<Vec<_>>()));
+        }
+        if rep.full() {
+            break;
+        }
+    }
+    rep
+}
